@@ -3,6 +3,7 @@ package sched
 import (
 	"fmt"
 	"math/rand"
+	"strings"
 	"sync"
 	"sync/atomic"
 	"time"
@@ -236,9 +237,13 @@ func FailSubLoop(seed int64, prog Program, n int) *RunResult {
 			}
 		}(p)
 	}
+	t0 := time.Now()
 	for i := 0; i < n && len(out.Violations) == 0; i++ {
 		conn := rconn.New(nil)
 		failing := i%2 == 0
+		if failing {
+			t0 = time.Now()
+		}
 		if failing {
 			conn.FailSub = func(string) error { return fmt.Errorf("subscription refused") }
 		}
@@ -258,6 +263,13 @@ func FailSubLoop(seed int64, prog Program, n int) *RunResult {
 			select {
 			case <-served:
 			case err := <-done:
+				// the Shutdown goroutine of the failed Serve may not have finished yet (Serve returns when the
+				// workers are gone, the state becomes stopped a moment later): not stopped is not a failure, try again
+				if err != nil && strings.Contains(err.Error(), "not stopped") && time.Since(t0) < 3*time.Second {
+					time.Sleep(200 * time.Microsecond)
+					i--
+					continue
+				}
 				viol("C03", "restart-refused", fmt.Sprintf("Serve number %d on a working connection, after a Serve that failed to subscribe, ended at once: %v", i+1, err))
 				continue
 			case <-time.After(3 * time.Second):
